@@ -7,7 +7,7 @@
 From Coq Require Import ZArith Reals List Bool Lra.
 From PW Require Import Num NumR Vec Mat NpList Result.
 From PW.model Require Import M_plane M_plane_ctor.
-From PW.proofs Require Import P_plane P_plane_ctor P_plane_fit.
+From PW.proofs Require Import P_vec P_mat P_plane P_plane_ctor P_plane_fit.
 Import ListNotations.
 Local Open Scope R_scope.
 
@@ -113,6 +113,19 @@ Theorem C13_fit_is_least_squares_partial : forall eigh ps, (2 <= length ps)%nat 
     forall m, vnorm2 ROps m = 1 ->
       ssd ps (centroid ROps ps) (pnormal pl) <= ssd ps (centroid ROps ps) m.
 Proof. exact fit_is_least_squares. Qed.
+(* tied eigenvalues: the least-squares plane is not unique.  Set-valued version: EVERY unit eigenvector n of the
+   covariance whose eigenvalue lam is minimal (cov - lam I positive semidefinite) gives a plane through the centroid
+   that the constructor accepts and that no plane through the centroid beats; and under the contract the fitted
+   normal is one of them.  For tie cases the correspondence checks exactly these hypotheses on the returned normal. *)
+Theorem C13_min_eigenvector_is_least_squares : forall ps n lam, (2 <= length ps)%nat ->
+  vnorm2 ROps n = 1 -> m3apply ROps (cov ROps ps) n = vscale ROps lam n ->
+  (forall m, lam * vdot ROps m m <= quad (cov ROps ps) m) ->
+  plane_ctor ROps (default_atol ROps) (centroid ROps ps) n = Ok (MkPlane (centroid ROps ps) n) /\
+  forall m, vnorm2 ROps m = 1 -> ssd ps (centroid ROps ps) n <= ssd ps (centroid ROps ps) m.
+Proof. exact min_eigenvector_is_least_squares. Qed.
+Theorem C13_contract_gives_min_eigenvector : forall c e, eig_contract c e ->
+  exists lam, (forall m, lam * vdot ROps m m <= quad c m) /\ quad c (fit_normal ROps e) = lam.
+Proof. exact contract_gives_min_eigenvector. Qed.
 (* the sum of squared distances is the quadratic form of the scatter matrix, (N - 1) times that of np.cov *)
 Theorem C13_ssd_is_quadratic_form : forall ps c m,
   ssd ps c m = quad (scatter ps c) m /\
@@ -153,6 +166,19 @@ Proof.
 Qed.
 (* non-vacuity: hypotheses of C13_fit_is_least_squares_partial for a concrete cloud and its eigen-decomposition
    (+-3 e_x, +-2 e_y, +-e_z: covariance diag(18,8,2)/5) *)
+(* non-vacuity of C13_min_eigenvector_is_least_squares with a TIE: +-e_x, +-e_y (covariance diag(2,2,0)/3), n = e_z *)
+Example C13_tie_hypotheses_inhabited :
+  let ps := [V3 1 0 0; V3 (-1) 0 0; V3 0 1 0; V3 0 (-1) 0] in
+  vnorm2 ROps (V3 0 0 1) = 1 /\ m3apply ROps (cov ROps ps) (V3 0 0 1) = vscale ROps 0 (V3 0 0 1) /\
+  forall m, 0 * vdot ROps m m <= quad (cov ROps ps) m.
+Proof.
+  cbv zeta. unfold cov, cov_entry, centroid, vsum, nlen, nsum, n1, quad.
+  cbn [length map fold_left Z.of_nat Pos.of_succ_nat Pos.succ vget]. rops. munf.
+  split; [ring|]. split; [apply V3_ext; field|]. intros [mx my mz]. munf.
+  replace (0 * (mx * mx + my * my + mz * mz)) with 0 by ring.
+  match goal with |- 0 <= ?e => replace e with (2 / 3 * (mx * mx) + 2 / 3 * (my * my)) by field end.
+  pose proof (Rle_0_sqr mx). pose proof (Rle_0_sqr my). unfold Rsqr in *. lra.
+Qed.
 Example C13_fit_hypotheses_inhabited :
   (2 <= length six_points)%nat /\ eig_contract (cov ROps six_points) ((fun _ => six_points_eig) (cov ROps six_points)).
 Proof. split; [cbn; repeat constructor|exact six_points_contract]. Qed.
@@ -165,5 +191,6 @@ Definition C13_all := (C13_ctor_accepts_iff_unit_to_decimals, C13_default_tolera
   C13_from_points_and_vector_contains_parallel, C13_from_points_and_vector_parallel_refused, C13_fit_through_centroid,
   C13_equation_functions_agree, C13_equation_functions_nan_iff_collinear, C13_stacked_is_map_single,
   C13_normal_and_offset_stack, C13_coordinate_planes, C13_coordinate_planes_constructible,
-  C13_tilted_contains_both, C13_tilted_accepted_result, C13_fit_is_least_squares_partial, C13_ssd_is_quadratic_form, C13_fit_too_few_points).
+  C13_tilted_contains_both, C13_tilted_accepted_result, C13_fit_is_least_squares_partial, C13_ssd_is_quadratic_form, C13_fit_too_few_points,
+  C13_min_eigenvector_is_least_squares, C13_contract_gives_min_eigenvector).
 Print Assumptions C13_all.
